@@ -464,9 +464,31 @@ pub fn script_scenario(prop: &str, shape: Shape, scripts: Vec<Vec<Op>>, oracle: 
         // scripts end with their completion, so every item preceded it
         let a_items: Vec<Item> = ops.iter().filter_map(|o| if let Op::NextA(v) = o { Some(*v) } else { None }).collect();
         let b_items: Vec<Item> = ops.iter().filter_map(|o| if let Op::NextB(v) = o { Some(*v) } else { None }).collect();
-        let scripts_end_with_completion = scripts.iter().all(|s| {
-          s.iter().position(|o| matches!(o, Op::CompleteA | Op::CompleteB)).map_or(true, |i| i + 1 == s.len())
-        });
+        // an input's items are all emitted by the thread that completes it, before
+        // it does so: only then does "every item preceded the completion" hold
+        let ordered = |is_next: &dyn Fn(&Op) -> bool, done: Op| -> bool {
+          let total: usize = scripts.iter().map(|s| s.iter().filter(|o| **o == done).count()).sum();
+          if total > 1 {
+            return false;
+          }
+          let owner = scripts.iter().position(|s| s.contains(&done));
+          scripts.iter().enumerate().all(|(t, s)| {
+            let nexts: Vec<usize> = s.iter().enumerate().filter(|(_, o)| is_next(o)).map(|(i, _)| i).collect();
+            match owner {
+              None => true,
+              Some(ow) => {
+                if t != ow {
+                  nexts.is_empty()
+                } else {
+                  let d = s.iter().position(|o| *o == done).unwrap();
+                  nexts.iter().all(|i| *i < d) && s.iter().filter(|o| **o == done).count() == 1
+                }
+              }
+            }
+          })
+        };
+        let scripts_end_with_completion = ordered(&|o| matches!(o, Op::NextA(_)), Op::CompleteA)
+          && ordered(&|o| matches!(o, Op::NextB(_)), Op::CompleteB);
         if undisturbed && scripts_end_with_completion {
           let notes = p0.notes();
           let completed = notes.last() == Some(&Note::C);
@@ -1156,6 +1178,31 @@ pub fn plan(prop: &str, tier: Tier) -> Option<Plan> {
       }
       for (limit, n) in [(1usize, 2usize), (1, 3), (2, 3)] {
         sc.push(flat_scenario("C10", limit, n, c3.max(1) + if n == 2 { 1 } else { 0 }, CAP));
+      }
+      // every pair of scripts of <= 2 calls on the two inputs of every two-input operator
+      let alpha2 = [Op::NextA(1), Op::NextB(1), Op::CompleteA, Op::CompleteB, Op::ErrorA, Op::Unsubscribe];
+      let t2 = seqs(&alpha2, 2);
+      for shape in [
+        Shape::Merge,
+        Shape::Zip,
+        Shape::CombineLatest,
+        Shape::WithLatestFrom,
+        Shape::TakeUntil,
+        Shape::SkipUntil,
+        Shape::Sample,
+        Shape::MergeAllHot,
+        Shape::Buffer,
+        Shape::MergeTake,
+      ] {
+        for (i, x) in t2.iter().enumerate() {
+          for y in t2.iter().skip(i) {
+            // one Unsubscribe per scenario
+            if x.contains(&Op::Unsubscribe) && y.contains(&Op::Unsubscribe) {
+              continue;
+            }
+            sc.push(script_scenario("C10", shape, vec![x.clone(), y.clone()], Oracle::Serialise, if q { 1 } else { 2 }, CAP));
+          }
+        }
       }
       for shape in [Shape::Share, Shape::Finalize, Shape::GroupBy] {
         for s in [
